@@ -161,6 +161,10 @@ NEEDS = {
     "C11_m8": "a header section that maps a field to a column index of 16 or more (index taken modulo 16)",
     "C04_m8": "a long-term disposal taking a partial fraction of a lot bought with a non-zero acquisition fee, fraction / lot amount not a multiple of 0.0001",
     "C17_m8": "LIFO/HIFO/LOFO, two assets in one process, the earlier one ending with a partially consumed lot that no later disposal re-selected, the later one with a lot on the same row (partial-amount map shared by the assets)",
+    "C15_m8": 'an earn-typed lot (interest, staking, mining, airdrop, income, wages, hard fork) left entirely unsold at the to-date',
+    "C12_m8": 'an INTRA row between two accounts of one holder whose destination exchange is not listed in the configuration',
+    "C13_m8": 'an out-transaction of type GIFT (SELL, DONATE and the other types are unaffected)',
+    "C16_m8": 'rp2_jp with generation language ja (its default): the only templates resolved through link files',
     "C17_m7": "-f mid-year, two assets, the later asset's events of that year all before the from-date while the earlier asset has one after it (Summary link row keyed by year only)",
     "C12_m7": "-m equal to the country's default method together with an [accounting_methods] section in the config (conflict no longer rejected)",
 }
